@@ -36,6 +36,10 @@ history = {
  'C01h':'frozen','C02h':'frozen-other','C03h':'frozen-other','C04h':'frozen','C05h':'frozen','C06h':'frozen','C07h':'frozen','C08h':'frozen',
  'C09h':'after','C10h':'frozen','C11h':'frozen-other','C13h':'frozen','C14h':'frozen-other','C15h':'after','C16h':'after','C17h':'frozen',
  'C18h':'frozen','C19h':'after','C20h':'after',
+ # round i: rules frozen at tag rules-frozen-for-round-i; first run in refs/round_i_first_run.txt
+ 'C01i':'after','C02i':'frozen-other','C03i':'frozen-other','C04i':'after','C05i':'frozen','C06i':'after','C07i':'frozen','C08i':'frozen',
+ 'C09i':'after','C10i':'frozen','C11i':'frozen-other','C13i':'frozen-other','C14i':'frozen','C15i':'frozen','C16i':'frozen','C17i':'frozen',
+ 'C18i':'frozen-other','C19i':'after','C20i':'after',
 }
 seeds = sys.argv[1:] or sorted(d for d in os.listdir('seeded') if os.path.isdir('seeded/'+d))
 out = subprocess.run(['tools/run_seeds.sh'] + seeds, capture_output=True, text=True).stdout
